@@ -121,9 +121,15 @@ def build(spec, V, pfx="p", params=None):
         else:
             kshape = list(img)
         if wts:
-            # weights = s^2 (s real >= 0 is not needed: sqrt is memoised as an auxiliary variable)
+            # weights = s^2 with s >= 0 registered as the square root (no auxiliary variable)
             w = arr("w", kshape if wts == "k" else [nc] + kshape, False)
             w2 = w * w
+            if V.symbolic:
+                from symsig import scalar as _S
+                for i in np.ndindex(*w.shape):
+                    _S.cur().register_sqrt(w2[i], w[i])
+            else:
+                w = np.abs(w)
             params.append((pfx + "w2", w2))
             kw["weights"] = w2
         if batch is not None:
@@ -312,8 +318,9 @@ def leaves(tier):
                 t.append(["Upsample", [n], [f], [s]])
     t += [["Downsample", [3, 4], [1, 2], [0, 1]], ["Upsample", [2, 3, 4], [1, 2, 3], [0, 1, 2]]]
     q += [["Sum", [2, 3], [0]], ["Sum", [2, 3, 2], [-1, 0]], ["Tile", [2, 3], [1]], ["Tile", [2, 3, 2], [0, -1]]]
-    t += [["Sum", [2, 3], [0, 1]], ["Sum", [2, 3, 2], [1]], ["Sum", [2, 3], [-2]], ["Tile", [3, 2], [-2]],
-          ["Tile", [2, 2, 3], [1]], ["Tile", [2, 3], [0, 1]], ["Sum", [3, 1], [1]], ["Sum", [2, 3], [1, -1]]]
+    t += [["Sum", [2, 3], [0, 1]], ["Sum", [2, 3, 2], [0, 1]], ["Sum", [2, 3, 2], [1]], ["Sum", [2, 3], [-2]], ["Tile", [3, 2], [-2]],
+          ["Tile", [2, 2, 3], [1]], ["Tile", [2, 3], [0, 1]], ["Tile", [2, 3, 2], [0, 1]], ["Sum", [3, 1], [1]], ["Sum", [2, 3, 2], [2, -3]]]
+    # (not in the universe: a repeated axis such as Sum([2,3],[1,-1]) - NumPy rejects it on apply)
     q += [["Slice", [5], [[1, 4, 2]]], ["Slice", [3, 4], [1, [None, None, -1]]], ["Embed", [5], [[1, 4, 2]]],
           ["Embed", [3, 4], [[0, 2, None], [3, None, -2]]]]
     t += [["Slice", [4, 3], [[None, None, 2]]], ["Slice", [2, 3, 2], [[None, None, None], 1]], ["Embed", [4, 3], [2]],
@@ -327,22 +334,24 @@ def leaves(tier):
                 t.append(["ArrayToBlocks", [n], [b], [s]])
                 t.append(["BlocksToArray", [n], [b], [s]])
     t += [["ArrayToBlocks", [4, 5], [2, 3], [1, 2]], ["BlocksToArray", [2, 3, 4], [2, 2], [1, 3]],
-          ["ArrayToBlocks", [3, 3, 3], [2, 2, 2], [1, 1, 1]], ["BlocksToArray", [3, 2, 3], [1, 2, 2], [2, 1, 1]],
-          ["ArrayToBlocks", [2, 2, 2, 2], [1, 2, 1, 2], [1, 1, 1, 1]]]
+          ["ArrayToBlocks", [3, 3, 3], [2, 2, 2], [1, 1, 1]], ["BlocksToArray", [3, 2, 3], [1, 2, 2], [2, 1, 1]]]
+    # (not in the universe: 4 block dimensions - sigpy documents D <= 3 and raises)
     q += [["FiniteDifference", [2, 3], None], ["FiniteDifference", [4], [0]]]
     t += [["FiniteDifference", [2, 3, 2], [-1, 0]], ["FiniteDifference", [3, 2], [1]], ["FiniteDifference", [1, 3], None]]
     # arithmetic with symbolic parameters
     q += [["Multiply", [2, 3], [2, 3], False], ["Multiply", [2, 3], [3], False], ["Multiply", [2, 3], [2, 1], True],
           ["Multiply", [3], [2, 3], False], ["Multiply", [2, 1], [1, 3], False], ["Multiply", [2, 3], "cplx", False],
-          ["Multiply", [2, 3], "cplx", True], ["Multiply", [2, 2], "one", False], ["Multiply", [1, 3], [2, 1, 1], False]]
+          ["Multiply", [2, 3], "cplx", True], ["Multiply", [2, 2], "one", False], ["Multiply", [1, 3], [2, 1, 1], False],
+          ["Multiply", [1], [2], False], ["Multiply", [1, 1], [2, 2], True], ["Sum", [2, 3], [1, 0]]]
     t += [["Multiply", [2, 3], [1], False], ["Multiply", [2, 1, 3], [2, 1], False], ["Multiply", [1], [2, 2], True],
           ["Multiply", [2, 3], "real", False], ["Multiply", [2], "cfloat", True], ["Multiply", [2], "int", False],
           ["Multiply", [2, 3], "float", False], ["Multiply", [2, 3, 2], [3, 1], True], ["Multiply", [3, 1], [1, 1, 2], False],
           ["Multiply", [1, 1], [1], False], ["Multiply", [2, 2], [1, 1, 2], True]]
     q += [["MatMul", [3, 2], [4, 3], False], ["MatMul", [2, 3, 2], [2, 3], False], ["MatMul", [3, 1], [2, 3, 2], True],
-          ["RightMatMul", [2, 3], [3, 2], False], ["RightMatMul", [2, 2, 3], [2, 3], True], ["MatMul", [2, 1], [3, 1, 2], False]]
-    t += [["MatMul", [2, 2], [2, 2], True], ["MatMul", [1, 3, 2], [2, 2, 3], False], ["MatMul", [2, 3, 1], [1, 2, 3], False],
-          ["RightMatMul", [1, 2], [3, 2, 2], False], ["RightMatMul", [2, 1, 3], [1, 3, 1], False], ["RightMatMul", [3, 2], [3, 2], True],
+          ["RightMatMul", [2, 3], [3, 2], False], ["RightMatMul", [2, 2, 3], [2, 3], True], ["MatMul", [2, 1], [3, 1, 2], False],
+          ["MatMul", [2, 2], [2, 2], True], ["MatMul", [2, 1], [2, 3], True], ["RightMatMul", [3, 2], [3, 2], True], ["MatMul", [2, 2], [3, 2], False]]
+    t += [ ["MatMul", [1, 3, 2], [2, 2, 3], False], ["MatMul", [2, 3, 1], [1, 2, 3], False],
+          ["RightMatMul", [1, 2], [3, 2, 2], False], ["RightMatMul", [2, 1, 3], [1, 3, 1], False],
           ["MatMul", [2, 1, 2, 1], [3, 1, 2], False], ["RightMatMul", [1, 2], [2, 2, 2, 2], True]]
     # transforms
     q += [["FFT", [3], None, True], ["FFT", [4], None, True], ["FFT", [2, 3], [-1], True], ["IFFT", [3, 2], None, True],
@@ -370,7 +379,9 @@ def leaves(tier):
     q += [["ConvolveData", [4], [2], "full", None, False], ["ConvolveData", [2, 4], [1, 2, 3], "full", None, True],
           ["ConvolveData", [3, 4], [2, 2], "valid", [2, 1], False], ["ConvolveFilter", [2], [4], "valid", None, False],
           ["ConvolveFilter", [2, 1, 2], [3, 1, 3], "full", [2], True], ["ConvolveDataAdjoint", [4], [3], "full", [2], False],
-          ["ConvolveFilterAdjoint", [2, 2], [3, 3], "valid", None, False], ["ConvolveData", [2], [3], "valid", [2], False]]
+          ["ConvolveFilterAdjoint", [2, 2], [3, 3], "valid", None, False], ["ConvolveData", [2], [3], "valid", [2], False],
+          ["ConvolveData", [2, 2], [3, 3], "valid", None, False], ["ConvolveFilter", [3, 3], [2, 2], "valid", None, False],
+          ["ConvolveFilter", [2, 2], [2, 3, 3], "full", None, False], ["ConvolveData", [2, 2, 3], [2, 2], "valid", [1, 2], False]]
     for m in (1, 2, 3, 4):
         for n in (1, 2, 3, 4):
             for mode in ("full", "valid"):
@@ -383,10 +394,11 @@ def leaves(tier):
           ["ConvolveData", [3, 3], [2, 2], "valid", None, False], ["ConvolveFilter", [3, 3], [2, 2], "valid", None, False]]
     # factories
     q += [["Sense", [2, 2], 2, None, False, None], ["Sense", [2, 3], 2, None, "k", 1], ["Sense", [2, 2], 2, COORD2["frac"], False, None]]
-    t += [["Sense", [3, 3], 2, None, "c", 2], ["Sense", [2, 2], 3, None, False, 2], ["Sense", [2, 2, 2], 2, None, False, 1],
-          ["Sense", [2, 3], 2, COORD2["tie"], "k", 1], ["Sense", [2, 2], 3, COORD2["frac"], "c", 2]]
+    t += [["Sense", [3, 3], 2, None, "c", None], ["Sense", [2, 2], 3, None, False, 2], ["Sense", [2, 2, 2], 2, None, False, 1],
+          ["Sense", [2, 3], 2, COORD2["tie"], "k", 1], ["Sense", [2, 2], 3, COORD2["frac"], "c", None], ["Sense", [2, 2], 3, COORD2["frac"], "k", 2]]
+    # (not in the universe: per-coil weights together with coil batching - weights are documented as k-space weights, one coil's shape)
     if tier == "quick":
-        return q
+        return q + t[::3]      # the core list plus a fixed third of the thorough sweep
     return q + t
 
 
